@@ -241,7 +241,7 @@ func (h *H) streamCase(id string, mask uint32, queue int, reports []report, wf b
 	evs := f.TakeEvents()
 	// drop the sentinel's two events (C0 CAN, Print U+E000) from the tail when alive
 	st := inp.CanonState(f.Vx.VerifC03Snapshot())
-	r.Emit("end", fmt.Sprintf("%s ev=%s snd=%s %s", outcome, inp.Join(evs), inp.Join(f.TakeStub()), st))
+	r.Emit("end", fmt.Sprintf("%s ev=%s snd=%s %s", outcome, inp.Join(evs), inp.Join(f.TakeStubSettled()), st))
 	f.Drain()
 	if !f.Close(5 * time.Second) {
 		r.Count("close-hang")
